@@ -25,17 +25,22 @@ Record RB (s : st) : Prop := {
 Definition wf_ltx (f : ltxrec) : Prop :=
   (forall p q, In (p, q) (l_pages f) -> 1 <= p) /\ KeysNoDup (l_pages f).
 
-Lemma rb_apply s f fatal s' : RB s -> wf_ltx f -> op_apply s f fatal = (Done, s') ->
+(* ApplyLTXNoLock from any state whose cache is truthful where the file leaves pages alone: afterwards the cache is the
+   file's everywhere and the position's checksum is the file's from-scratch checksum *)
+Lemma apply_core s f fatal s' :
+  1 <= lockpg s -> CacheOK s -> LockZero s -> wal_chk s = [] -> wf_ltx f ->
+  (forall x, 1 <= x <= l_commit f -> x <> lockpg s -> alookup x (l_pages f) = None -> dbc s x = file_h s x) ->
+  op_apply s f fatal = (Done, s') ->
   RB s' /\ lockpg s' = lockpg s /\ txid s' = l_max f /\ pageN s' = l_commit f /\ chk s' = l_post f /\
   chk s' = scratch (fun p => if p =? lockpg s' then 0 else file_h s' p) (pageN s').
 Proof.
-  intros [Rl Rc Rz Rw Rt Rtl] [Hpos Hnd] H. unfold op_apply in H.
+  intros Rl Rc Rz Rw [Hpos Hnd] Rt H. unfold op_apply in H.
   destruct (fold_write_facts (l_pages f) s Hpos Hnd Rl Rc Rz) as [B1 [B2 [B3 [B4 [B5 [B6 [B7 [B8 [B9 B10]]]]]]]]].
   pose proof (fold_write_wal_chk (l_pages f) s) as Bw.
   set (s1 := fold_left (fun a kv => write_db_page a (fst kv) (snd kv)) (l_pages f) s) in *. cbn zeta in *.
   (* after the page writes the cache is still the file's *)
-  assert (Ht1 : forall x, 1 <= x -> x <> lockpg s -> dbc s1 x = file_h s1 x).
-  { intros x Hx Hnl. rewrite B9, B10 by assumption. destruct (alookup x (l_pages f)).
+  assert (Ht1 : forall x, 1 <= x <= l_commit f -> x <> lockpg s -> dbc s1 x = file_h s1 x).
+  { intros x Hx Hnl. rewrite B9, B10 by lia. destruct (alookup x (l_pages f)) eqn:El.
     - destruct (N.eqb_spec x (lockpg s)); [contradiction|reflexivity].
     - apply Rt; assumption. }
   destruct (N.eqb_spec (l_commit f) 0) as [Ec|Ec].
@@ -80,7 +85,7 @@ Proof.
     assert (Hwc : wal_chk sf = []) by (change (wal_chk sf) with (wal_chk s4); rewrite S7; change (wal_chk s3) with (wal_chk s2); rewrite Tw, Bw; exact Rw).
     assert (Htr : forall p, 1 <= p -> p <> lockpg s -> dbc sf p = file_h sf p).
     { intros p Hp Hnl. rewrite Hdb, Hfh, T8, T9 by assumption.
-      destruct (N.ltb_spec (l_commit f) p), (N.leb_spec p (l_commit f)); try lia. apply Ht1; assumption. }
+      destruct (N.ltb_spec (l_commit f) p), (N.leb_spec p (l_commit f)); try lia. apply Ht1; [lia|assumption]. }
     split; [|split; [exact Hlk|split; [reflexivity|split; [reflexivity|split; [reflexivity|]]]]].
     + constructor.
       * rewrite Hlk. exact Rl.
@@ -97,6 +102,14 @@ Proof.
       destruct (N.ltb_spec (l_commit f) p); [lia|]. cbn [alookup].
       change (wal_chk s3) with (wal_chk s2). rewrite Tw, Bw, Rw. cbn [alookup fst].
       change (db_page_chk s3 p) with (dbc s2 p). rewrite <- Hdb. apply Htr; [lia|assumption].
+Qed.
+
+Lemma rb_apply s f fatal s' : RB s -> wf_ltx f -> op_apply s f fatal = (Done, s') ->
+  RB s' /\ lockpg s' = lockpg s /\ txid s' = l_max f /\ pageN s' = l_commit f /\ chk s' = l_post f /\
+  chk s' = scratch (fun p => if p =? lockpg s' then 0 else file_h s' p) (pageN s').
+Proof.
+  intros [Rl Rc Rz Rw Rt Rtl] Hwf H. apply (apply_core s f fatal s' Rl Rc Rz Rw Hwf); [|exact H].
+  intros x Hx Hnl _. apply Rt; [lia|assumption].
 Qed.
 
 (* ---- histories of received files ---- *)
